@@ -6,11 +6,17 @@ from lib import core
 from lib.core import exc_name, idset
 
 ID = "C09"
-AUDIT_IMPORTS = ["HypatiaProofs.Properties.C09"]
+AUDIT_IMPORTS = ["HypatiaProofs.Properties.C09", "HypatiaProofs.Properties.C09Index"]
 THEOREMS = ["Hyp.Persist." + t for t in (
     "c09_refinement", "c09_commit_reopen", "c09_abort_restores", "c09_rollback_restores", "c09_evict_invisible",
     "c09_undisciplined_lost", "c09_undisciplined_survives_abort", "c09_hypatia_blocks_disciplined",
-    "c09_blocks_compose")]
+    "c09_blocks_compose",
+    # derived from the object-level index models (Properties/C09Index.lean)
+    "c09_steps_are_the_log_gained", "c09_field_op_disciplined", "c09_keyword_op_disciplined",
+    "c09_facet_op_disciplined",
+    "c09_text_op_disciplined", "c09_text_wordinfo_calls_disciplined", "c09_modelled_disciplined",
+    "c09_index_histories_refine", "c09_index_commit_reopen", "c09_add_wordinfo_slip_lost",
+    "c09_mass_add_slip_lost")]
 CASES = {"quick": 400, "thorough": 5000}
 BUDGET_S = {"quick": 45, "thorough": 780}
 BATCH = 10
@@ -26,11 +32,20 @@ RULE = ("histories of 4-30 catalog operations (index/reindex/unindex/reset on a 
 LEVEL_TEXT = ("Lean 4: a cell-store model of ZODB's commit/abort/savepoint/rollback/eviction (only registered "
               "objects are written or invalidated) with the theorem that, when every in-place mutation of a "
               "plain container is followed by a notifying write in the same operation, memory and disk are the "
-              "states of the surviving operations (refinement of the transaction-log specification); the runtime "
-              "half - pickling, FileStorage, cache, the real re-assignments in hypatia - is checked by running "
-              "the real catalog in a FileStorage against an in-memory catalog on the surviving operations")
-LEVEL_NOTE = ("partial: the theorem is about the dirty-tracking abstraction; that hypatia's operations are "
-              "disciplined blocks is established by the correspondence run, not by proof; ZODB, persistent, "
+              "states of the surviving operations (refinement of the transaction-log specification). That "
+              "hypatia's operations are such blocks is proved from the object-level models of the field, keyword, "
+              "facet and text index (the heaps of persistent objects C19 uses): each operation's block is the "
+              "list of mutation steps the model operation logs - in-place changes of a dict stored inside the "
+              "_wordinfo bucket are plain steps, everything else notifies - and every index_doc / reindex_doc / "
+              "unindex_doc of all four index types is disciplined from any state (c09_*_op_disciplined), so the "
+              "refinement holds for every history of modelled operations (c09_index_histories_refine); the two "
+              "seeded slips (_add_wordinfo without re-assignment, _mass_add_wordinfo flagging the tree root) are "
+              "proved undisciplined and to lose the update on commit+reopen. The runtime half - pickling, "
+              "FileStorage, cache, that the real methods do the steps the model logs - is checked by running the "
+              "real catalog in a FileStorage against an in-memory catalog on the surviving operations")
+LEVEL_NOTE = ("partial: the theorem is about the dirty-tracking abstraction and the object-level models; that the "
+              "real methods perform the modelled steps is established by the correspondence runs (C09 histories; "
+              "C19 two-connection runs tie the models' write sets to real commits); ZODB, persistent, "
               "transaction, BTrees are trusted third-party code that is only sampled")
 TECHNIQUE = "Lean 4 refinement proof for the persistence abstraction + differential run on a real FileStorage"
 
